@@ -42,132 +42,160 @@ def run(chk, repo: Repo):
 
 
 def _r1(chk, repo, model):
-    fn = repo.method(model, "_apply_func")[1]
+    """Decided on the structural normal form with private helpers inlined; the array path as the closed expression the function returns when the
+    input is not a Samples object (sa/pathtable.py), the Samples path by def-use expansion of the recursive per-column call."""
+    from .common import canon_fn
+    from ..pathtable import walk
+    from ..flow import Expander
+    from ..pattern import norm as pn
+    from .common import canon_keep
+    src = repo.method(model, "_apply_func")[1]
+    fn = canon_keep(repo, model, src, keep={"_2fun", "_2par", "_apply_func"})
     ps = func_params(fn)          # self, func, func_range_geometry, func_domain_geometry, x, is_par
     if len(ps) < 6:
         raise AnchorError("Model._apply_func signature changed")
     f, rg, dg, x, ip = ps[1:6]
-    g = CFG(fn)
     inst = f"{model.qual}._apply_func"
-    # non-Samples path
-    stmts = {n: _norm(n.ast) for n in g.nodes if n.ast is not None and n.kind in ("stmt", "return")}
-    conv = [n for n, t in stmts.items() if t == f"{x}=self._2fun({x},{dg},is_par={ip})"]
-    appl = [n for n, t in stmts.items() if t == f"out={f}({x},**kwargs)"]
-    flag = [n for n, t in stmts.items() if t in (f"is_CUQIarray=type({x})isCUQIarray", f"is_CUQIarray=isinstance({x},CUQIarray)")]
-    ret = [n for n, t in stmts.items() if t == f"returnself._2par(out,{rg},to_CUQIarray=is_CUQIarray)"]
+    SAM = pn(f"isinstance({x},Samples)")
+    kind, res = walk(fn, {SAM: False, pn(f"isinstance({x},cuqi.samples.Samples)"): False}, pn)
     problems = []
-    if len(conv) != 1:
-        problems.append(f"input is not converted by `self._2fun({x}, {dg}, is_par={ip})` (domain geometry, caller's flag)")
-    if len(appl) != 1:
-        problems.append("raw function is not applied exactly once to the converted input")
-    if len(ret) != 1:
-        problems.append(f"output is not converted by `self._2par(out, {rg}, to_CUQIarray=is_CUQIarray)` (range geometry, wrapped like the input)")
-    if len(flag) != 1:
-        problems.append("the wrapping flag is not taken from the type of the input")
-    if not problems:
-        if not (g.dominates(flag[0], conv[0]) and g.dominates(conv[0], appl[0]) and g.dominates(appl[0], ret[0])):
-            problems.append("order is not: remember input type -> convert input -> apply -> convert output")
-    chk.add("C12-R1", inst + "/array-path", not problems, site(repo, fn), "type(x) -> _2fun(domain) -> func -> _2par(range, wrap like input)", "; ".join(problems), fn)
+    if kind == "unknown":
+        chk.unknown("C12-R1", inst + "/array-path", site(repo, src), f"array path not decidable: {res}", src)
+    else:
+        wants = [pn(f"self._2par({f}(self._2fun({x},{dg},is_par={ip}),**kwargs),{rg},to_CUQIarray={flag})")
+                 for flag in (f"type({x}) is CUQIarray", f"isinstance({x},CUQIarray)")]
+        got = pn(res) if kind == "return" else kind
+        if got not in wants:
+            if kind != "return":
+                problems.append(f"the array path ends in `{kind}`")
+            else:
+                if pn(f"self._2fun({x},{dg},is_par={ip})") not in got:
+                    problems.append(f"input is not converted by `self._2fun({x}, {dg}, is_par={ip})` (domain geometry, caller's flag)")
+                if got.count(pn(f"{f}(")) != 1:
+                    problems.append("raw function is not applied exactly once to the converted input")
+                if not got.startswith("self._2par(") or pn(f",{rg},to_CUQIarray=") not in got:
+                    problems.append(f"output is not converted by `self._2par(out, {rg}, to_CUQIarray=<input was a CUQIarray>)` (range geometry, wrapped like the input)")
+                if not problems:
+                    problems.append(f"the array path returns `{unparse(res)[:160]}`")
+        chk.add("C12-R1", inst + "/array-path", not problems, site(repo, src), "type(x) -> _2fun(domain) -> func -> _2par(range, wrap like input)", "; ".join(problems), src)
     # Samples path
-    tests = [t for t in g.tests() if _norm(t.ast) == f"isinstance({x},Samples)"]
+    ex = Expander(fn)
+    g = ex.cfg
+    tests = [t for t in g.tests() if pn(t.ast) == SAM]
     if len(tests) != 1:
         raise AnchorError(f"{inst}: Samples branch not found")
     T = tests[0]
     sam = [n for n in g.nodes if n.ast is not None and g.requires_edge(n, T, "T")]
-    for n in ([] if not conv else [conv[0], appl[0]] if appl else []):
-        if not g.requires_edge(n, T, "F"):
-            problems.append("array path is reachable for Samples input")
     sp = []
+    # names that stand for the collection inside this branch (x itself, `y = x`, `y = y.funvals` under the vectorised-function-values guard)
+    aliases = {x}
+    changed = True
+    while changed:
+        changed = False
+        cand = {}
+        for n in sam:
+            if n.kind == "stmt" and isinstance(n.ast, ast.Assign) and isinstance(n.ast.targets[0], ast.Name):
+                v_ = n.ast.value
+                base = path_of(v_) if not (isinstance(v_, ast.Attribute) and v_.attr == "funvals") else path_of(v_.value)
+                cand.setdefault(n.ast.targets[0].id, []).append(base in aliases or base == n.ast.targets[0].id)
+        for nm, oks in cand.items():
+            if nm not in aliases and all(oks):
+                aliases.add(nm)
+                changed = True
+    import re as _re
+
+    def canon_x(t: str) -> str:
+        for a_ in sorted(aliases - {x}, key=len, reverse=True):
+            t = _re.sub(rf"(?<![A-Za-z_0-9.]){_re.escape(a_)}(?![A-Za-z_0-9])", x, t)
+        return t
     rec = list({id(c): c for n in sam for c in ast.walk(n.ast) if isinstance(c, ast.Call) and call_name(c) == "self._apply_func"}.values())
     if len(rec) != 1:
         sp.append("Samples are not processed by one recursive call per column")
     else:
         c = rec[0]
-        args = [_norm(a) for a in c.args]
-        kws = {k.arg: _norm(k.value) for k in c.keywords if k.arg}
+        cn = g.stmt_node_containing(c)
+        args = [canon_x(pn(ex.expand(a, cn, stop=frozenset(aliases)))) for a in c.args]
+        kws = {k.arg: canon_x(pn(ex.expand(k.value, cn, stop=frozenset(aliases)))) for k in c.keywords if k.arg}
         if args[:3] != [f, rg, dg]:
             sp.append(f"recursive call passes {args[:3]}, not ({f}, {rg}, {dg})")
         flagv = kws.get("is_par", args[4] if len(args) > 4 else None)
         if flagv != f"{x}.is_par":
             sp.append(f"per-column call uses is_par={flagv}: the collection's own representation flag {x}.is_par is not honoured")
-        # loop: for idx, item in enumerate(x); out[:, idx] = ...
         loops = [n.ast for n in sam if isinstance(n.ast, ast.For)]
-        if len(loops) != 1 or _norm(loops[0].iter) != f"enumerate({x})":
+        if len(loops) != 1 or canon_x(pn(ex.expand(loops[0].iter, g.node_of(loops[0]), stop=frozenset(aliases)))) != f"enumerate({x})":
             sp.append("columns are not enumerated from the collection")
         else:
-            i, it = [_norm(e) for e in loops[0].target.elts]
+            i, it = [pn(e) for e in loops[0].target.elts]
             par = getattr(c, "_parent", None)
-            if not (isinstance(par, ast.Assign) and _norm(par.targets[0]) == f"out[:,{i}]" and (args[3] if len(args) > 3 else None) == it):
+            if not (isinstance(par, ast.Assign) and isinstance(par.targets[0], ast.Subscript) and pn(par.targets[0].slice) in (pn(f"(slice(None,None,None),{i})"), f":,{i}", f"(:,{i})")
+                    and (args[3] if len(args) > 3 else None) == it):
                 sp.append("result of column i is not stored in out[:, i]")
-    alloc = [n for n in sam if _norm(n.ast) == f"out=np.zeros(({rg}.par_dim,{x}.Ns))"]
-    if len(alloc) != 1:
-        sp.append(f"output is not allocated as ({rg}.par_dim, {x}.Ns)")
-    rets = [n for n in sam if n.kind == "return"]
-    if len(rets) != 1 or _norm(rets[0].ast.value) not in (f"Samples(out,geometry={rg})", f"Samples(out,{rg})"):
-        sp.append("result is not wrapped as Samples with the range geometry")
+            else:
+                outn = path_of(par.targets[0].value)
+                alloc = [n for n in sam if n.kind == "stmt" and isinstance(n.ast, ast.Assign) and path_of(n.ast.targets[0]) == outn
+                         and canon_x(pn(ex.expand(n.ast.value, n, stop=frozenset(aliases)))) == pn(f"np.zeros(({rg}.par_dim,{x}.Ns))")]
+                if len(alloc) != 1:
+                    sp.append(f"output is not allocated as ({rg}.par_dim, {x}.Ns)")
+                rets = [n for n in sam if n.kind == "return"]
+                if len(rets) != 1 or pn(rets[0].ast.value) not in (pn(f"Samples({outn},geometry={rg})"), pn(f"Samples({outn},{rg})")):
+                    sp.append("result is not wrapped as Samples with the range geometry")
     # any use of x.funvals / x.parameters / x.vector inside the Samples branch must be restricted to vectorised function values
     for n in sam:
         if n.kind == "iter":
             continue
         for a in ast.walk(n.ast):
-            if isinstance(a, ast.Attribute) and path_of(a.value) == x and a.attr in ("funvals", "parameters", "vector"):
-                gs = [(_norm(t.ast), lab) for t, lab in g.guards_of(n)]
+            if isinstance(a, ast.Attribute) and path_of(a.value) in aliases and a.attr in ("funvals", "parameters", "vector"):
+                gs = [(canon_x(pn(t.ast)), lab) for t, lab in g.guards_of(n)]
                 ok = (f"{x}.is_par", "F") in gs and (f"{x}.is_vec", "T") in gs and a.attr == "funvals"
                 if not ok:
                     sp.append(f"line {a.lineno}: `{x}.{a.attr}` converts with the collection's own geometry; only vectorised function values "
                               f"(not {x}.is_par and {x}.is_vec) may be unpacked this way, parameters must go through the model's domain geometry")
-    chk.add("C12-R1", inst + "/samples-path", not sp, site(repo, T.ast), "column-wise, collection's flags, range geometry", "; ".join(sp), fn)
+    chk.add("C12-R1", inst + "/samples-path", not sp, site(repo, src), "column-wise, collection's flags, range geometry", "; ".join(sp), src)
 
 
 def _r2(chk, repo, model):
-    f2 = repo.method(model, "_2fun")[1]
+    """_2fun / _2par as decision tables over their tests (sa/pathtable.py): independent of elif / early-return / result-variable spelling"""
+    from .common import canon_fn
+    from ..pathtable import table
+    from ..pattern import norm as pn
+    src = repo.method(model, "_2fun")[1]
+    f2 = canon_fn(repo, model, src, 2)
     x, geo, ip = func_params(f2)[1:4]
-    g = CFG(f2)
+    atoms = [f"isinstance({x},CUQIarray)", f"{x}.geometry=={geo}", ip]
+    tb = table(f2, atoms, pn)
     problems = []
-    a1 = [n for n in g.nodes if n.ast is not None and _norm(n.ast) == f"{x}={x}.funvals"]
-    a2 = [n for n in g.nodes if n.ast is not None and _norm(n.ast) == f"{x}={geo}.par2fun({x})"]
-    if len(a1) != 1 or len(a2) != 1:
-        problems.append("expected exactly the two conversions x.funvals (geometry-carrying array) and geometry.par2fun(x)")
-    else:
-        g1 = {(_norm(t.ast), lab) for t, lab in g.guards_of(a1[0])}
-        g2 = {(_norm(t.ast), lab) for t, lab in g.guards_of(a2[0])}
-        if not {(f"isinstance({x},CUQIarray)", "T"), (f"{x}.geometry=={geo}", "T")} <= g1:
-            problems.append("x.funvals is not restricted to CUQIarray with the same geometry")
-        if (ip, "T") not in g2:
-            problems.append(f"par2fun is not restricted to inputs flagged as parameters ({ip})")
-        # par2fun must not be reachable for a CUQIarray with equal geometry
-        if not any(lab == "F" for t, lab in g2 if t in (f"isinstance({x},CUQIarray)", f"{x}.geometry=={geo}")) and \
-                a2[0].id in g.reachable_from([m for m, l in g.succ[a1[0].id]]):
-            problems.append("a value can be converted twice")
-    rets = g.returns()
-    if len(rets) != 1 or _norm(rets[0].ast.value) != x:
-        problems.append("does not return the converted value")
-    chk.add("C12-R2", f"{model.qual}._2fun", not problems, site(repo, f2), "CUQIarray(same geometry) -> funvals; elif is_par -> par2fun; else unchanged",
-            "; ".join(problems), f2)
-    p2 = repo.method(model, "_2par")[1]
-    v, geo = func_params(p2)[1:3]
-    g = CFG(p2)
+    for (A, B, C), (kind, got) in sorted(tb.items(), reverse=True):
+        if kind == "unknown":
+            chk.unknown("C12-R2", f"{model.qual}._2fun", site(repo, src), f"not decidable: {got}", src)
+            problems = None
+            break
+        want = pn(f"{x}.funvals") if (A and B) else (pn(f"{geo}.par2fun({x})") if C else x)
+        if kind != "return" or got != want:
+            case = f"CUQIarray={A}, same geometry={B}, {ip}={C}"
+            problems.append(f"[{case}] returns `{got if kind == 'return' else kind}`, expected `{want}`")
+    if problems is not None:
+        chk.add("C12-R2", f"{model.qual}._2fun", not problems, site(repo, src), "CUQIarray(same geometry) -> funvals; elif is_par -> par2fun; else unchanged",
+                "; ".join(problems[:3]), src)
+    src = repo.method(model, "_2par")[1]
+    p2 = canon_fn(repo, model, src, 2)
+    ps2 = func_params(p2)
+    v, geo = ps2[1:3]
+    atoms = [f"isinstance({v},CUQIarray)", f"{v}.geometry=={geo}", "is_par", "to_CUQIarray"]
+    tb = table(p2, atoms, pn)
     problems = []
-    a1 = [n for n in g.nodes if n.ast is not None and _norm(n.ast) == f"{v}={v}.parameters"]
-    a2 = [n for n in g.nodes if n.ast is not None and _norm(n.ast) == f"{v}={geo}.fun2par({v})"]
-    a3 = [n for n in g.nodes if n.ast is not None and _norm(n.ast) == f"{v}=CUQIarray({v},is_par=True,geometry={geo})"]
-    if len(a1) != 1 or len(a2) != 1 or len(a3) != 1:
-        problems.append("expected val.parameters, geometry.fun2par(val) and the CUQIarray(is_par=True, geometry) wrapping")
-    else:
-        g1 = {(_norm(t.ast), lab) for t, lab in g.guards_of(a1[0])}
-        g2 = {(_norm(t.ast), lab) for t, lab in g.guards_of(a2[0])}
-        g3 = {(_norm(t.ast), lab) for t, lab in g.guards_of(a3[0])}
-        if not {(f"isinstance({v},CUQIarray)", "T"), (f"{v}.geometry=={geo}", "T")} <= g1:
-            problems.append("val.parameters is not restricted to CUQIarray with the same geometry")
-        if ("is_par", "F") not in g2:
-            problems.append("fun2par is applied although the value is flagged as parameters")
-        if ("to_CUQIarray", "T") not in g3:
-            problems.append("wrapping is not controlled by to_CUQIarray")
-    rets = g.returns()
-    if len(rets) != 1 or _norm(rets[0].ast.value) != v:
-        problems.append("does not return the converted value")
-    chk.add("C12-R2", f"{model.qual}._2par", not problems, site(repo, p2), "CUQIarray(same geometry) -> parameters; elif not is_par -> fun2par; optional wrap",
-            "; ".join(problems), p2)
+    for (A, B, C, D), (kind, got) in sorted(tb.items(), reverse=True):
+        if kind == "unknown":
+            chk.unknown("C12-R2", f"{model.qual}._2par", site(repo, src), f"not decidable: {got}", src)
+            problems = None
+            break
+        base = f"{v}.parameters" if (A and B) else (v if C else f"{geo}.fun2par({v})")
+        want = pn(f"CUQIarray({base},is_par=True,geometry={geo})") if D else pn(base)
+        if kind != "return" or got != want:
+            case = f"CUQIarray={A}, same geometry={B}, is_par={C}, to_CUQIarray={D}"
+            problems.append(f"[{case}] returns `{got if kind == 'return' else kind}`, expected `{want}`")
+    if problems is not None:
+        chk.add("C12-R2", f"{model.qual}._2par", not problems, site(repo, src), "CUQIarray(same geometry) -> parameters; elif not is_par -> fun2par; optional wrap",
+                "; ".join(problems[:3]), src)
 
 
 def _r3(chk, repo, model):
@@ -194,27 +222,51 @@ def _r3(chk, repo, model):
         problems.append("wrt must be converted to parameters before it is overwritten by its function values, and both before the raw gradient")
     chk.add("C12-R3", f"{model.qual}.gradient/conversions", not problems, site(repo, gfn), "wrt/direction conversions as documented", "; ".join(problems), gfn)
     init = repo.method(model, "__init__")[1]
-    lam = [n for n in ast.walk(init) if isinstance(n, ast.Assign) and isinstance(n.value, ast.Lambda) and path_of(n.targets[0]) == "gradient"]
-    ok = len(lam) == 1 and _norm(lam[0].value) == "lambdadirection,wrt:direction@jacobian(wrt)"
+    # the callable bound to `gradient` when only a Jacobian is given: a lambda or a nested def whose value is direction @ jacobian(wrt)
+    from ..canon import _single_expr
     g2 = CFG(init)
-    if ok:
-        n = g2.node_of(lam[0])
-        ok = any(_norm(t.ast) == "jacobianisnotNone" and lab == "T" for t, lab in g2.guards_of(n))
-    chk.add("C12-R3", f"{model.qual}.__init__/jacobian-wrapper", ok, site(repo, lam[0] if lam else init), "gradient = direction @ jacobian(wrt)",
-            "Jacobian-based gradient is not the vector-Jacobian product direction @ jacobian(wrt)", lam[0] if lam else init)
+    cands = []
+    for n in g2.nodes:
+        a = n.ast
+        if n.kind == "stmt" and isinstance(a, ast.Assign) and isinstance(a.value, ast.Lambda) and path_of(a.targets[0]) == "gradient":
+            cands.append((n, [x_.arg for x_ in a.value.args.args], a.value.body))
+        elif isinstance(a, ast.FunctionDef) and a.name == "gradient":
+            e = _single_expr(a)
+            cands.append((n, [x_.arg for x_ in a.args.args], e))
+    ok = False
+    if len(cands) == 1 and cands[0][2] is not None and len(cands[0][1]) == 2:
+        n, (d_, w_), body = cands[0]
+        ok = _norm(body) == f"{d_}@jacobian({w_})" and any(_norm(t.ast) in ("jacobianisnotNone",) and lab == "T" for t, lab in g2.guards_of(n))
+    lam = [c[0].ast for c in cands]
+    chk.decide("C12-R3", f"{model.qual}.__init__/jacobian-wrapper", ok, bool(cands), site(repo, init), "gradient = direction @ jacobian(wrt)",
+               "Jacobian-based gradient is not the vector-Jacobian product direction @ jacobian(wrt)", init)
     both = [t for t in g2.tests() if _norm(t.ast) == "gradientisnotNone"]
     ok = any(_norm(r.ast).startswith("raiseTypeError('Onlyoneofgradientandjacobian") for r in g2.nodes if r.kind == "raisestmt")
     chk.add("C12-R3", f"{model.qual}.__init__/gradient-xor-jacobian", ok, site(repo, init), "both given -> TypeError", "gradient and jacobian can both be given", init)
     pde = repo.cls("cuqi/model/_model.py:PDEModel")
-    pg = repo.method(pde, "_gradient_func")[1]
-    rets = [_norm(n.value) for n in ast.walk(pg) if isinstance(n, ast.Return)]
-    ok = rets == ["self.pde.gradient_wrt_parameter(direction,wrt)", "direction@self.pde.jacobian_wrt_parameter(wrt)"]
-    chk.add("C12-R3", f"{pde.qual}._gradient_func", ok, site(repo, pg), "gradient_wrt_parameter(direction, wrt) else direction @ jacobian_wrt_parameter(wrt)",
-            f"PDE gradient dispatch returns {rets}", pg)
+    pg_src = repo.method(pde, "_gradient_func")[1]
+    from .common import canon_fn
+    from ..pathtable import table
+    from ..pattern import norm as pn
+    pg = canon_fn(repo, pde, pg_src, 4)
+    d_, w_ = func_params(pg)[1:3]
+    tb = table(pg, ["hasattr(self.pde,'gradient_wrt_parameter')", "hasattr(self.pde,'jacobian_wrt_parameter')"], pn)
+    bad = []
+    undec = [v for v in tb.values() if v[0] == "unknown"]
+    for (A, B), (kind, got) in tb.items():
+        want = ("return", pn(f"self.pde.gradient_wrt_parameter({d_},{w_})")) if A else (("return", pn(f"{d_}@self.pde.jacobian_wrt_parameter({w_})")) if B else ("raise", None))
+        if (kind, got) != want and kind != "unknown":
+            bad.append(f"[direct product available={A}, Jacobian available={B}] {kind} `{got}`, expected {want[0]} `{want[1]}`")
+    chk.decide("C12-R3", f"{pde.qual}._gradient_func", not bad and not undec, not undec, site(repo, pg_src),
+               "gradient_wrt_parameter(direction, wrt) else direction @ jacobian_wrt_parameter(wrt)",
+               f"PDE gradient dispatch: {'; '.join(bad) or undec[:1]}", pg_src)
 
 
 def _r4_r5(chk, repo, model):
-    fn = repo.method(model, "forward")[1]
+    from .common import canon_keep, guarded, pmatch
+    from ..pattern import norm as pn, unify, statements
+    src = repo.method(model, "forward")[1]
+    fn = canon_keep(repo, model, src, keep={"_apply_func", "_parse_args_add_to_kwargs", "_2fun", "_2par"})
     g = CFG(fn)
     inst = f"{model.qual}.forward"
     app = [n for n in g.nodes if n.ast is not None and n.kind == "return" and isinstance(n.ast.value, ast.Call) and call_name(n.ast.value) == "self._apply_func"]
@@ -224,41 +276,43 @@ def _r4_r5(chk, repo, model):
     problems = []
     if args != ["self._forward_func", "self.range_geometry", "self.domain_geometry", "x", "is_par"]:
         problems.append(f"_apply_func is called with {args}, expected (self._forward_func, self.range_geometry, self.domain_geometry, x, is_par)")
-    guards = {(_norm(t.ast), lab) for t, lab in g.guards_of(app[0])}
-    for need in (("set(list(kwargs.keys()))!=set(self._non_default_args)", "F"), ("len(kwargs)>1", "F")):
-        if need not in guards:
-            problems.append(f"validation `{need[0]}` does not precede the application of the operator")
-    for t in g.tests():
-        if _norm(t.ast) in ("set(list(kwargs.keys()))!=set(self._non_default_args)", "len(kwargs)>1"):
-            if not all(g.nodes[m].kind == "raisestmt" for m, lab in g.succ[t.id] if lab == "T"):
-                problems.append(f"`{unparse(t.ast)}` does not raise")
-    pk = [n for n in g.nodes if n.ast is not None and _norm(n.ast) == "kwargs=self._parse_args_add_to_kwargs(*args,**kwargs)"]
+    NAMES = [("set(kwargs)!=set(self._non_default_args)", "F"), ("set(self._non_default_args)!=set(kwargs)", "F"),
+             ("set(kwargs)==set(self._non_default_args)", "T"), ("set(self._non_default_args)==set(kwargs)", "T")]
+    ONE = [("1<len(kwargs)", "F"), ("len(kwargs)<=1", "T"), ("len(kwargs)==1", "T"), ("len(kwargs)!=1", "F")]
+    if not any(guarded(g, app[0], p_, lab) for p_, lab in NAMES):
+        problems.append("validation `set(kwargs) != set(self._non_default_args)` does not precede the application of the operator")
+    if not any(guarded(g, app[0], p_, lab) for p_, lab in ONE):
+        problems.append("validation `len(kwargs) > 1` does not precede the application of the operator")
+    pk = [n for n in g.nodes if n.ast is not None and n.kind == "stmt" and pn(n.ast) == pn("kwargs=self._parse_args_add_to_kwargs(*args,**kwargs)")]
     if len(pk) != 1 or not g.dominates(pk[0], app[0]):
         problems.append("arguments are not parsed by _parse_args_add_to_kwargs first")
-    chk.add("C12-R5", inst, not problems, site(repo, fn), "parse -> validate names -> single input -> apply(forward_func, range, domain)", "; ".join(problems), fn)
-    pa = repo.method(model, "_parse_args_add_to_kwargs")[1]
+    chk.add("C12-R5", inst, not problems, site(repo, src), "parse -> validate names -> single input -> apply(forward_func, range, domain)", "; ".join(problems), src)
+    pa_src = repo.method(model, "_parse_args_add_to_kwargs")[1]
+    from .common import canon_fn
+    pa = canon_fn(repo, model, pa_src, 1)
     gp = CFG(pa)
     store = [n for n in gp.nodes if isinstance(n.ast, ast.Assign) and isinstance(n.ast.targets[0], ast.Subscript) and path_of(n.ast.targets[0].value) == "kwargs"]
-    ok = len(store) == 1 and {("len(kwargs)>0", "F"), ("len(args)!=len(self._non_default_args)", "F")} <= {(_norm(t.ast), lab) for t, lab in gp.guards_of(store[0])}
-    chk.add("C12-R5", f"{model.qual}._parse_args_add_to_kwargs", ok, site(repo, pa), "positional+keyword and wrong arity refused before insertion",
-            "positional arguments can be merged although keywords were given or the arity is wrong", pa)
-    # R4 distribution branch
-    ret = [n for n in g.nodes if n.kind == "return" and path_of(n.ast.value) == "new_model"]
+    ok = len(store) == 1 and any(guarded(gp, store[0], p_, lab) for p_, lab in (("0<len(kwargs)", "F"), ("len(kwargs)==0", "T"), ("kwargs", "F"))) \
+        and any(guarded(gp, store[0], p_, lab) for p_, lab in (("len(args)!=len(self._non_default_args)", "F"), ("len(self._non_default_args)!=len(args)", "F"),
+                                                             ("len(args)==len(self._non_default_args)", "T"), ("len(self._non_default_args)==len(args)", "T")))
+    chk.decide("C12-R5", f"{model.qual}._parse_args_add_to_kwargs", ok, len(store) >= 1, site(repo, pa_src), "positional+keyword and wrong arity refused before insertion",
+               "positional arguments can be merged although keywords were given or the arity is wrong", pa_src)
+    # R4 distribution branch: the value returned for a Distribution input is a shallow copy whose input name list is REBOUND to [x.name]
+    dist_t = [t for t in g.tests() if pn(t.ast) == pn("isinstance(x,cuqi.distribution.Distribution)")]
     problems = []
-    if len(ret) != 1:
-        problems.append("distribution branch does not return the renamed copy")
+    if len(dist_t) != 1:
+        raise AnchorError(f"{inst}: distribution branch not found")
+    region = [n for n in g.nodes if n.ast is not None and n.kind in ("stmt", "return") and g.requires_edge(n, dist_t[0], "T")]
+    S = [(pn(n.ast), n.ast) for n in region]
+    b, used = unify(["$m=copy(self)", "$m._non_default_args=[x.name]", "return $m"], S)
+    if b is None:
+        problems.append(f"branch is not `new = copy(self); new._non_default_args = [x.name]; return new` (found {[t for t, _ in S][:5]})")
     else:
-        guards = {(_norm(t.ast), lab) for t, lab in g.guards_of(ret[0])}
-        if ("isinstance(x,cuqi.distribution.Distribution)", "T") not in guards:
-            problems.append("renaming is not restricted to Distribution inputs")
-        if ("x.dim!=self.domain_dim", "F") not in guards:
+        rn = [n for n in region if n.ast is used[2]][0]
+        if not any(guarded(g, rn, p_, lab) for p_, lab in (("x.dim!=self.domain_dim", "F"), ("self.domain_dim!=x.dim", "F"), ("x.dim==self.domain_dim", "T"), ("self.domain_dim==x.dim", "T"))):
             problems.append("dimension check does not precede the renaming")
-        body = [_norm(n.ast) for n in g.nodes if n.ast is not None and n.kind == "stmt" and g.requires_edge(n, [t for t in g.tests() if _norm(t.ast) == "isinstance(x,cuqi.distribution.Distribution)"][0], "T")]
-        want = ["new_model=copy(self)", "new_model._non_default_args=[x.name]"]
-        extra = [b for b in body if b not in want]
-        if [b for b in body if b in want] != want:
-            problems.append(f"branch is not `new_model = copy(self); new_model._non_default_args = [x.name]` (found {body})")
+        extra = [t for t, a in S if a not in used and not t.startswith("raise")]
         if extra:
             problems.append(f"the distribution branch changes more than the input name: {extra}")
-    chk.add("C12-R4", inst + "/distribution-branch", not problems, site(repo, fn), "copy(self) with _non_default_args rebound to [x.name], nothing else",
-            "; ".join(problems), fn)
+    chk.add("C12-R4", inst + "/distribution-branch", not problems, site(repo, src), "copy(self) with _non_default_args rebound to [x.name], nothing else",
+            "; ".join(problems), src)
